@@ -2102,6 +2102,11 @@ class IMAPClientCommand:
                 raise BadSyntax(
                     value="mailbox name is outside of the mail directory"
                 )
+            # The namespace prefix is not used internally (get_mailbox()
+            # strips it too): hand on the relative name so that no code path
+            # joins an absolute path to the mail directory.
+            #
+            mbox_name = "inbox" if rel_name.lower() == "inbox" else rel_name
         return mbox_name
 
     #######################################################################
